@@ -18,6 +18,7 @@ EDIT_KINDS = ("add_node", "delete_node", "add_edge", "delete_edge", "swap", "upd
               "paint")
 
 DEFAULT_WEIGHTS = {
+    "reload": 0,
     "rescale": 0,
     "features": 0,
     "scenario": 0,
@@ -486,7 +487,10 @@ class OpGen:
         nodes = list(tracks.graph.nodes)
         if self.bad(0.05) or not nodes:
             return {"op": "delete_node", "node": 9000 + rng.randrange(50)}
-        return {"op": "delete_node", "node": int(self.pick_node(tracks, [int(n) for n in nodes]))}
+        op = {"op": "delete_node", "node": int(self.pick_node(tracks, [int(n) for n in nodes]))}
+        if tracks.segmentation is not None and rng.random() < 0.2:
+            op["with_pixels"] = True  # the caller hands over the node's pixels ("if known")
+        return op
 
     # -- edges
     def gen_add_edge(self, tracks):
@@ -579,10 +583,12 @@ class OpGen:
                    "flag": rng.random() < 0.5}[key]
         attrs = {key: val}
         if rng.random() < 0.3:
-            # several keys in one call; a protected one (if any) comes last
+            # several keys in one call; a protected one (if any) comes first or last
             k2 = rng.choice([x for x in ["score", "note", "flag"] if x != key])
-            first = {k2: {"score": round(rng.random(), 3), "note": "z", "flag": True}[k2]}
-            attrs = {**first, **attrs}
+            other = {k2: {"score": round(rng.random(), 3), "note": "z", "flag": True}[k2]}
+            attrs = {**other, **attrs} if rng.random() < 0.5 else {**attrs, **other}
+        elif rng.random() < 0.05:
+            attrs = {}  # an update that names no attribute is still a (trivial) top-level action
         return {"op": "update_attrs", "node": n, "attrs": attrs}
 
     # -- paint
@@ -702,6 +708,9 @@ class OpGen:
         if k in tracks.annotators.features and rng.random() < 0.6:
             return {"op": "features", "disable": [k]}
         return {"op": "features", "enable": [k], "recompute": True}
+
+    def gen_reload(self, tracks):
+        return {"op": "reload"}
 
     def gen_undo(self, tracks):
         if self.rng.random() < 0.12:
@@ -962,7 +971,12 @@ def execute_inner(tracks, op: dict) -> Outcome:
                                 force=op.get("force", False))
                 info["attrs_after"] = dict(attrs)
             elif k == "delete_node":
-                a = UserDeleteNode(tracks, I(op["node"]))
+                if op.get("with_pixels") and op["node"] in tracks.graph \
+                        and tracks.segmentation is not None:
+                    a = UserDeleteNode(tracks, I(op["node"]),
+                                       pixels=tracks.get_pixels(op["node"]))
+                else:
+                    a = UserDeleteNode(tracks, I(op["node"]))
             elif k == "add_edge":
                 e = np.array(op["edge"]) if npk == "array-edge" else \
                     list(op["edge"]) if op.get("edge_as") == "list" else \
